@@ -26,12 +26,12 @@ SwapName(swaps, b) == LET S == {k \in 1..Len(swaps) : swaps[k][1] = b \/ swaps[k
                       IF S = {} THEN b ELSE LET k == CHOOSE k \in S : TRUE IN IF swaps[k][1] = b THEN swaps[k][2] ELSE swaps[k][1]
 Expected(t, n) ==
   LET src == SrcOf(t.swaps, Len(t.swaps), n)
-      g0 == BlendGlyph(t.masters, t.locs, src, t.loc)
+      g0 == BlendGlyph(t.masters, t.locs, t.default, src, t.loc)
       g1 == IF t.round THEN RoundGlyph(g0) ELSE g0
       \* component references follow the swap; code points stay with the name
   IN [g1 EXCEPT !.comps = [c \in 1..Len(g1.comps) |-> [g1.comps[c] EXCEPT !.b = SwapName(t.swaps, @)]],
                 !.u = t.masters[t.default][n].u,
-                !.h = LET own == BlendGlyph(t.masters, t.locs, n, t.loc) IN IF t.round THEN RoundS(own.h) ELSE own.h]   \* the height is not swapped
+                !.h = LET own == BlendGlyph(t.masters, t.locs, t.default, n, t.loc) IN IF t.round THEN RoundS(own.h) ELSE own.h]   \* the height is not swapped
 \* kerning / info values are quarter units; the blend is computed at scale 32 so that the division is exact
 BlendK(t, k) == LET vals == [m \in 1..Len(t.kern) |-> 8 * t.kern[m][k][3]]
                     v == BlendVal(vals, t.locs, t.loc)                         \* scale 32
@@ -41,6 +41,7 @@ BlendI(t, a) == LET v == BlendVal([m \in 1..Len(t.info) |-> 8 * t.info[m][a]], t
                 IN IF t.round THEN 32 * OtRound(v, 32) ELSE v
 BadGlyphs(t) == {n \in DOMAIN t.inst : n \in DOMAIN t.masters[t.default] /\ t.inst[n] # Expected(t, n)}
 Clauses(t) ==
+  IF Has(t, "err") THEN << <<"instantiates", FALSE>> >> ELSE
   << <<"glyph-set-is-default-source", DOMAIN t.inst = DOMAIN t.masters[t.default]>>,
      <<"outline-is-model-blend", BadGlyphs(t) = {}>>,
      <<"kerning-is-model-blend", \A k \in 1..Len(t.instKern) : t.instKern[k][3] = BlendK(t, k)>>,
@@ -52,7 +53,7 @@ Clauses(t) ==
 Init == i = 1
 Next == /\ i <= Len(Traces)
         /\ LET t == Traces[i]  cl == Clauses(t)  bad == {k \in 1..Len(cl) : ~cl[k][2]}
-           IN PrintT(<<"VERDICT", t.tid, IF bad = {} THEN "none" ELSE cl[Min(bad)][1], "none", ToString(BadGlyphs(t))>>)
+           IN PrintT(<<"VERDICT", t.tid, IF bad = {} THEN "none" ELSE cl[Min(bad)][1], "none", IF Has(t, "err") THEN t.err ELSE ToString(BadGlyphs(t))>>)
         /\ i' = i + 1
 Spec == Init /\ [][Next]_i
 =============================================================================
